@@ -1,7 +1,10 @@
 #!/bin/sh
-# refresh every registered check's evidence on /repo (quick tier), sequentially; prints one line per check
+# tools/runall.sh [tier] [ids...]: refresh evidence of the registered checks (default: all, quick) on /repo,
+# sequentially; prints one line per check
 cd "$(dirname "$0")/.."
-for c in $(python3 -c "import json;print(' '.join(c['property_id'] for c in json.load(open('MANIFEST.json'))['checks']))"); do
-  s=$(date +%s); bin/check $c --tier ${1:-quick} > /tmp/runall-$c.log 2>&1; rc=$?
+tier=${1:-quick}; [ $# -gt 0 ] && shift
+ids="$@"; [ -z "$ids" ] && ids=$(python3 -c "import json;print(' '.join(c['property_id'] for c in json.load(open('MANIFEST.json'))['checks']))")
+for c in $ids; do
+  s=$(date +%s); bin/check $c --tier $tier > /tmp/runall-$c.log 2>&1; rc=$?
   echo "$c exit=$rc $(( $(date +%s) - s ))s $(grep -c KNOWN-FINDING /tmp/runall-$c.log) known-findings"
 done
